@@ -30,13 +30,15 @@ def run(tier):
     # 1. model checking of the relation + export of its behaviours
     cfg = os.path.join(d, "MC_Buf2_%s.cfg" % tier)
     write_cfg(cfg, consts, True)
-    r = vf.tlc("MC_Buf2", cfg, workers=8, gc="parallel", heap="8g", print_prefix='<<"REPLAY"')
+    r = vf.tlc("MC_Buf2", cfg, workers=8, gc="parallel", heap="8g")
     chk.add_mc("MC_Buf2", r, consts)
     gen_cases = os.path.join(d, "gen_cases.ndjson")
     n = 0
     with open(gen_cases, "w") as f:
         for ln in r.prints:
             t = vf.parse_print(ln)
+            if not t or t[0] != "REPLAY":
+                continue
             try:
                 calls = json.loads(t[1])
             except Exception:
